@@ -1,7 +1,7 @@
 //! C07 - process depends only on the byte stream, not on how it arrives.
 use simcore::exec::{Out, Sink};
 use simcore::rng::Rng;
-use simcore::spec::{Family, Model};
+use simcore::spec::Family;
 use simcore::world::Ev;
 
 use super::common::{any_stream, pick_iface};
@@ -36,7 +36,7 @@ impl Prop for C07T {
     fn generate(&self, seed: u64, thorough: bool) -> Scenario {
         let mut rng = Rng::new(seed);
         let (iface, cap) = pick_iface(&mut rng, &[Family::Tree, Family::Tree, Family::Tree, Family::Zoo, Family::Queue]);
-        let m = Model::of(iface);
+        let m = simcore::spec::model(iface);
         let n = *rng.pick(simcore::spec::IFACES[iface].ns);
         let sweep = rng.chance(1, if thorough { 40 } else { 400 });
         let (mut stream, _) = any_stream(&mut rng, &m, n, if thorough { 200 } else { 120 });
